@@ -307,6 +307,15 @@ class CallListerVisitor(ast.NodeVisitor):
     def visit_FunctionDef(self, node):
         # def and async def bind their name in the enclosing scope
         self.bind_name(getattr(node, 'name', None), node)
+        # decorators and default values are evaluated in the enclosing scope,
+        # when the definition itself is executed
+        for expr in getattr(node, 'decorator_list', []):
+            self.visit(expr)
+        for expr in node.args.defaults:
+            self.visit(expr)
+        for expr in node.args.kw_defaults:
+            if expr is not None: # keyword-only parameter without default
+                self.visit(expr)
         self.namespace = Namespace(self.namespace)
         self.process_parameters(node.args)
         body = node.body
